@@ -3,7 +3,7 @@
    replace a file's whole content; a run creates, reads back and removes only temp files whose names derive from
    its own chunk and partition counts. *)
 From Coq Require Import NArith List String.
-From KT Require Import Model.Show Model.Fs Model.CtrFs Proof.Merge Proof.DegenerateProof Proof.CtrFsProof Proof.CovFsProof.
+From KT Require Import Model.Show Model.Fs Model.CtrFs Proof.Merge Proof.DegenerateProof Proof.CtrFsProof Proof.CovFsProof Proof.MappedBytes.
 Import ListNotations.
 Notation length := List.length.
 Notation concat := List.concat.
@@ -62,6 +62,21 @@ Theorem C17_cov_files_independent_of_previous_content :
                fs_read q f' = fs_read q f).
 Proof. exact cov_fs_correct. Qed.
 
+(* the memory-mapped result file at the level of bytes: whatever bytes the path held before - longer, shorter, and
+   even if the file were only resized (set_len keeps the bytes below the new length) instead of truncated - once
+   the header and every row have been copied to their offsets, in any order, the file is header ++ rows *)
+Theorem C17_mapped_result_independent_of_previous_bytes :
+  forall hdr L (rows : list (list N)) ws old old', Forall (fun r => length r = L) rows ->
+  (forall w, In w ws <-> In w (layout hdr L rows)) ->
+  apply_writes ws (set_len (length hdr + L * length rows) old) = hdr ++ concat rows /\
+  apply_writes ws (set_len (length hdr + L * length rows) old) = apply_writes ws (set_len (length hdr + L * length rows) old').
+Proof.
+  intros hdr L rows ws old old' Hr Hw.
+  assert (H : forall o, apply_writes ws (set_len (length hdr + L * length rows) o) = hdr ++ concat rows).
+  { intros o. apply mapped_file_any_order_any_previous_content; [exact Hr|intros w; apply Hw|intros w; apply Hw]. }
+  split; [apply H|rewrite !H; reflexivity].
+Qed.
+
 Example C17_example :
   let stale := [(Show.str "out/kmers.counts"%string, Show.str "old"%string); (Show.str "out/temp_kmers.part_9_chunk_3"%string, Show.str "7 7"%string)] in
   let c := {| results := [(Show.str "out/kmers.counts"%string, Show.str "new"%string)]; temps := [(Show.str "out/temp_kmers.part_0_chunk_0"%string, Show.str "1 1"%string)] |} in
@@ -77,3 +92,4 @@ Print Assumptions C17_counter_same_table_in_any_two_locations.
 Print Assumptions C17_temp_names_distinct.
 Print Assumptions C17_temp_name_is_not_the_counts_table.
 Print Assumptions C17_cov_files_independent_of_previous_content.
+Print Assumptions C17_mapped_result_independent_of_previous_bytes.
